@@ -116,6 +116,12 @@ func (c *ctx) wrapPend(mark int, body string, n int) string {
 		if pd.kind == 0 {
 			body = fmt.Sprintf("%smatch %s with\n%s| Some %s =>\n%s\n%s| None => %s\n%send",
 				ind(n), pd.scrut, ind(n), pd.name, body, ind(n), c.failCode(coqString(pd.reason)), ind(n))
+		} else if pd.kind == 2 {
+			pat := pd.name
+			if strings.HasPrefix(pat, "(") {
+				pat = "'" + pat
+			}
+			body = fmt.Sprintf("%slet %s := %s in\n%s", ind(n), pat, pd.scrut, body)
 		} else {
 			m := c.fresh("msg")
 			body = fmt.Sprintf("%smatch %s with\n%s| Known %s =>\n%s\n%s| Unknown %s => %s\n%send",
@@ -433,15 +439,18 @@ func (c *ctx) specialAssign(s *ast.AssignStmt, n int) (string, bool) {
 		fail("assignment to an element of %s, which is not a list variable", id.Name)
 	}
 	c.checkNotCaptured(l, id.Name)
+	c.noteWrite(l)
 	et := l.t.elems[0]
 	var rhs ast.Expr = s.Rhs[0]
 	switch s.Tok {
 	case token.ASSIGN:
 	case token.ADD_ASSIGN, token.SUB_ASSIGN, token.MUL_ASSIGN, token.QUO_ASSIGN:
-		op := map[token.Token]token.Token{token.ADD_ASSIGN: token.ADD, token.SUB_ASSIGN: token.SUB,
-			token.MUL_ASSIGN: token.MUL, token.QUO_ASSIGN: token.QUO}[s.Tok]
-		rhs = &ast.BinaryExpr{X: s.Lhs[0], Op: op, Y: &ast.ParenExpr{X: rhs}}
+		rhs = &ast.BinaryExpr{X: s.Lhs[0], Op: opOfAssign[s.Tok], Y: &ast.ParenExpr{X: rhs}}
 	default:
+		if op, ok := opOfAssign[s.Tok]; ok && c.g.intm {
+			rhs = &ast.BinaryExpr{X: s.Lhs[0], Op: op, Y: &ast.ParenExpr{X: rhs}}
+			break
+		}
 		fail("assignment operator %s is outside the fragment", s.Tok)
 	}
 	i := c.intExpr(ix.Index, "index")
@@ -627,6 +636,9 @@ func (c *ctx) loopState(state []string) (typ, tup, pat string) {
 }
 
 func (c *ctx) loopResultType() string {
+	if len(c.resTy) == 0 {
+		return c.fullResultType().coqType()
+	}
 	return c.resultType().coqType()
 }
 
@@ -640,6 +652,8 @@ func (c *ctx) afterLoop(loopCode, tup string, rest func(n int) string, n int) st
 func (c *ctx) loopBody(body *ast.BlockStmt, tup string, n int) string {
 	c.modes = append(c.modes, 1)
 	c.loops = append(c.loops, tup)
+	c.loopScope = append(c.loopScope, len(c.scopes))
+	defer func() { c.loopScope = c.loopScope[:len(c.loopScope)-1] }()
 	savedNoCatch := c.noCatch
 	code := c.block(body.List, func(m int) string { return ind(m) + "(SNext " + tup + ")" }, n)
 	c.noCatch = savedNoCatch
